@@ -152,11 +152,18 @@ class Tally:
         return self
 
 
-def _short(x, lim=2000):
+def _display(o):
+    """like _default but bytes are shown readably (expected/observed are for humans, not for replay)"""
+    if isinstance(o, (bytes, bytearray)):
+        return repr(bytes(o))
+    return _default(o)
+
+
+def _short(x, lim=1200):
     if x is None:
         return None
     try:
-        s = jdump(x)
+        s = json.dumps(x, sort_keys=True, default=_display, ensure_ascii=True)
     except Exception:
         s = repr(x)
     if len(s) > lim:
